@@ -32,6 +32,8 @@ BUILTINS = {
 }
 
 LIST_MUTATORS = {"append", "extend", "insert"}
+STATEFUL_METHODS = {"read", "readline", "readinto", "tell", "pop", "popitem", "recv", "__next__"}
+STATEFUL_FUNCS = {"time.time", "time.perf_counter", "builtins.next", "builtins.id", "builtins.input"}
 
 
 class Event:
@@ -1236,7 +1238,11 @@ class Interp:
             if results:
                 result = phi(results)
         if result is None:
-            result = mkcall(f, args, kwargs)
+            if fname in STATEFUL_METHODS or tm.dotted(f) in STATEFUL_FUNCS:
+                # two calls with equal arguments are different values: make the term unique
+                result = mkcall(f, args, tuple(kwargs) + (("#", const(len(self.events))),))
+            else:
+                result = mkcall(f, args, kwargs)
             if not targets and f.op not in ("ext",):
                 self.unresolved_calls.append(ev)
             # higher-order externals that call back into repo code
